@@ -299,6 +299,75 @@ fn negated_function_spellings(acc: &mut Acc) {
     }
 }
 
+const REJECTED_FIRST: [&str; 12] = [
+    "$[?(length(@.a))]", "$[?(count(1)==1)]", "$[?(match(@.a))]", "$[?(@.a==9007199254740992)]", "$[?(@.a in @.b)]", "$[?((((length(@.a)))))]", "$[?count((@[9007199254740992]==1))>0]", "$[?match(@.a,!(@.b in 1))]",
+    "$[", "$[?@.a==]", "$[?(((@.a==1))]", "$[?!(!(value(@.a)))]",
+];
+
+/// equivalent spellings still agree (with each other and with what they give on a fresh thread) after a long history
+/// of REJECTED queries on the same thread: a failed parse must not leave anything behind
+fn spellings_after_rejections(acc: &mut Acc) {
+    let doc = json!([{"a": 1, "b": 2}, {"a": "x"}, {"b": 1}, [1], 1]);
+    let groups: Vec<Vec<&str>> = vec![
+        vec!["$[?@.a==1]", "$[?(@.a==1)]", "$[?((@.a==1))]", "$[?!(!(@.a==1))]", "$[?((((((@.a==1))))))]"],
+        vec!["$[?@.a&&@.b]", "$[?(@.a)&&(@.b)]", "$[?((@.a&&@.b))]", "$[?(((@.a))&&((@.b)))]"],
+        vec!["$[?length(@.a)==1]", "$[?(length(@.a)==1)]", "$[?((length(@.a))==1)]".trim_end_matches("X")],
+        vec!["$[?match(@.a,'x')]", "$[?(match(@.a,'x'))]", "$[?((match(@.a,'x')))]", "$[?!(!match(@.a,'x'))]"],
+        vec!["$[?count(@.*)>1]", "$[?(count(@.*)>1)]", "$[?!(count(@.*)<=1)||(count(@.*)>1)]"],
+        vec!["$[?@[?@==1]]", "$[?(@[?(@==1)])]", "$[?((@[?((@==1))]))]"],
+    ];
+    // the third spelling of group 3 is not valid (a function in parentheses is not a comparable): drop invalid ones
+    let groups: Vec<Vec<&str>> = groups.into_iter().map(|g| g.into_iter().filter(|q| rfc_parse(q).is_ok()).collect()).collect();
+    let eval_all = |warm: bool| -> Vec<Vec<Result<Vec<u32>, String>>> {
+        let doc = &doc;
+        let groups = &groups;
+        std::thread::scope(|s| {
+            s.spawn(move || {
+                let am = AddrMap::new(doc);
+                if warm {
+                    for _ in 0..40 {
+                        for r in REJECTED_FIRST {
+                            let _ = imp::run_with_path(r, doc, &am);
+                            let _ = imp::parse(r);
+                        }
+                    }
+                }
+                groups.iter().map(|g| g.iter().map(|q| ids_only(&imp::run_with_path(q, doc, &am))).collect()).collect()
+            })
+            .join()
+            .expect("spelling thread")
+        })
+    };
+    let cold = eval_all(false);
+    let warm = eval_all(true);
+    for (gi, g) in groups.iter().enumerate() {
+        for (qi, q) in g.iter().enumerate() {
+            acc.evals += 1;
+            if warm[gi][qi] != cold[gi][0] || cold[gi][qi] != cold[gi][0] {
+                acc.viol(
+                    format!("{:?} and {:?} are equivalent spellings; on a fresh thread they give {:?} and {:?}, after 480 rejected queries on the thread the second gives {:?} (document {})", g[0], q, cold[gi][0], cold[gi][qi], warm[gi][qi], doc),
+                    json!({"kind": "spelling-after-rejections", "class": "spellings after a history of rejected queries", "canonical": g[0], "variant": q, "doc": doc}),
+                );
+            } else {
+                acc.nontrivial += 1;
+            }
+        }
+    }
+}
+
+pub fn replay_after_rejections(case: &Value, _run: &Run) -> Acc {
+    let mut all = Acc::new();
+    spellings_after_rejections(&mut all);
+    let mut acc = Acc::new();
+    for v in all.viols {
+        if v.case["variant"] == case["variant"] {
+            println!("{}", v.msg);
+            acc.viol(v.msg, v.case);
+        }
+    }
+    acc
+}
+
 pub fn replay_sequence(case: &Value, _run: &Run) -> Acc {
     let mut acc = Acc::new();
     let doc = &case["doc"];
@@ -394,6 +463,7 @@ pub fn run(tier: &str) -> i32 {
     number_magnitudes(&mut acc);
     significant_blanks(&mut acc);
     negated_function_spellings(&mut acc);
+    spellings_after_rejections(&mut acc);
     if acc.extra.get("MACHINERY_invalid_spelling").copied().unwrap_or(0) > 0 {
         eprintln!("MACHINERY: the spelling generator produced strings the RFC recogniser rejects:");
         for o in acc.outcomes.iter().take(5) {
